@@ -787,3 +787,12 @@ def register_run2(reg):
                2: dict(invariant=scan_inv, locals={"any_running": Bool, "comp": TRef("ITimeComponent")})},
         ensures=lambda ctx, r: z3.BoolVal(True),
     ))
+
+
+_MON = {"name": "run-monitor", "script": "replay/drivers/seq_sched.py", "args": ["--json"], "timeout": 3000}
+BOUNDED = {p: [_MON] for p in ("C01", "C02", "C03", "C04", "C05")}
+REPLAY = {
+    f"{S}._find_dependencies": "seq_sched.py", f"{S}.Composition._update_recursive": "seq_sched.py",
+    f"{S}.Composition.run": "seq_sched.py", f"{S}.Composition._finalize_components": "seq_sched.py",
+    f"{S}.Composition._check_status": "seq_sched.py",
+}
